@@ -17,7 +17,7 @@
 (***************************************************************************)
 EXTENDS ThOps, Json
 
-CONSTANTS Keys, Plains, MaxSum, MaxN, Depth, Emit
+CONSTANTS Keys, Plains, MaxSum, MaxN, BigTN, Depth, Emit
 
 VARIABLES phase, pf, last
 vars == <<phase, pf, last>>
@@ -140,6 +140,15 @@ AShares(k, m, t, n, es) ==
                 ideal |-> IdealWhole(es, t)]
   /\ phase' = "judged" /\ UNCHANGED pf
 
+ASharesBig(k, m, t, n, sh) ==
+  /\ phase = "idle"
+  /\ LET ids == ShapeIds(sh, t, n)
+         es == [i \in 1..Len(ids) |-> E(ids[i], ids[i], TRUE)]
+         g == CombineGuard(es) IN
+       last' = [act |-> "EGShares", k |-> k, m |-> m, t |-> t, n |-> n, entries |-> es, layer |-> "ideal",
+                expect |-> [res |-> g.t, eq |-> (IsOk(g) /\ IdealWhole(es, t))], ideal |-> IdealWhole(es, t)]
+  /\ phase' = "judged" /\ UNCHANGED pf
+
 AReset == phase = "judged" /\ phase' = "idle" /\ pf' = NoPf /\ last' = Quiet
 
 PlainSeqs == UNION {[1..l -> Plains] : l \in 1..MaxSum}
@@ -153,6 +162,7 @@ Next ==
   \/ (phase = "made" /\ \E pr \in PkRs : AVerify(pr))
   \/ (phase = "made" /\ \E k2 \in Keys : AVerifyDecrypt(k2))
   \/ (phase = "idle" /\ \E k \in NZKeys, m \in Plains, tn \in TN : \E es \in ShareSeqs(tn[2]) : AShares(k, m, tn[1], tn[2], es))
+  \/ (phase = "idle" /\ \E k \in NZKeys, tn \in BigTN, sh \in Shapes : ASharesBig(k, 1, tn[1], tn[2], sh))
   \/ AReset
 
 Spec == Init /\ [][Next]_vars
